@@ -217,8 +217,11 @@ def accepted_language(src, f, rep):
             rej2 = rx.erase_markers(Rc.intersect(Gm))
             a1 = ok2.intersect(rej2).witness()
             if a1 is not None:
-                raise AnalysisError('%s: guard outcome is parse dependent even among the parses backtracking can choose (priority of %s, tails of %s): %r'
+                e_ = ParseDependent('%s: guard outcome is parse dependent even among the parses backtracking can choose (priority of %s, tails of %s): %r'
                                     % (f.site, prio, tails, a1))
+                # what is decided all the same: strings none of whose parses is accepted / all of whose parses are accepted
+                e_.upper, e_.lower, e_.regex = ok2, ok2.minus(rej2), r
+                raise e_
             lost = L.minus(rx.erase_markers(Rc)).witness()
             if lost is not None:
                 raise AnalysisError('%s: internal: the priority pruning lost every parse of %r' % (f.site, lost))
@@ -228,11 +231,30 @@ def accepted_language(src, f, rep):
                 accepted=accepted, chosen_ok=chosen_ok, guards=guards, rest=rest, alpha=alpha)
 
 
+class ParseDependent(AnalysisError):
+    """the accepted set could not be determined exactly; .upper / .lower bound it"""
+
+
 def r1_accepted_set(rep, src, rule='C14.R1', only_valid_accepted=False):
     """(also used by C03 as its premise: every valid version can be constructed, hence compared)"""
     f = src.func(SITE + '._set_full_version')
     rep.saw_func(f)
-    A = accepted_language(src, f, rep)
+    try:
+        A = accepted_language(src, f, rep)
+    except ParseDependent as e_:
+        # the exact set is not determined, its bounds are: a valid string that no parse accepts is refused whatever backtracking
+        # chooses, an invalid one that every parse accepts is accepted whatever it chooses
+        ref_ = rx.regex_lang('(?:%s|%s)' % (REF_WITH_EPOCH, REF_NO_EPOCH), 0, 'fullmatch', alpha=e_.upper.alpha)
+        w_ = ref_.not_subset_witness(e_.upper)
+        if w_ is not None:
+            rep.fail(rule, f.site, 'valid ⊆ accepted', 'the constructor rejects the valid version string %r (no parse of it by %r passes the guards)%s'
+                     % (w_, e_.regex['pattern'], ': such versions cannot be compared at all' if only_valid_accepted else ''),
+                     detail={'witness': w_, 'direction': 'valid-but-rejected'}, where=f.where)
+        w_ = e_.lower.not_subset_witness(ref_)
+        if w_ is not None and not only_valid_accepted:
+            rep.fail(rule, f.site, 'accepted ⊆ valid', 'the constructor accepts the invalid version string %r (every parse of it passes the guards)' % w_,
+                     detail={'witness': w_, 'direction': 'accepted-but-invalid'}, where=f.where)
+        raise
     alpha = A['alpha']
     ref = rx.regex_lang('(?:%s|%s)' % (REF_WITH_EPOCH, REF_NO_EPOCH), 0, 'fullmatch', alpha=alpha)
     w = A['accepted'].not_subset_witness(ref)
@@ -588,6 +610,9 @@ def check(src, rep, tier):
     A = rep.guard('C14.R1', r1_accepted_set, src)
     if A is not None:
         rep.guard('C14.R2', r2_lossless, src, A)
-    rep.guard('C14.R3', r3_check_then_commit, src, A)
+    if A is not None:
+        rep.guard('C14.R3', r3_check_then_commit, src, A)
+    else:
+        rep.error('C14.R3', 'not evaluated: the accepted language (C14.R1) is not available')
     if tier == 'thorough':
         common.regex_audit(rep, src, 'C14', modules=['debian_support'])
